@@ -318,7 +318,7 @@ func (x *H1Client) pump() {
 	r.Client = x.Name
 	r.SentAt = x.S.Now()
 	x.Conn.Send(r.Frame)
-	x.S.Logf("h1client %s send req#%d %dB", x.Name, r.Idx, len(r.Frame))
+	x.S.Logf("h1client %s send req#%d %s %dB", x.Name, r.Idx, r.Method, len(r.Frame))
 }
 
 func (x *H1Client) OnData(c *sim.Conn, b []byte) {
